@@ -286,6 +286,51 @@ func runC15(r *rt.Run) {
 		}
 		geoRun(w, "haversine-roundtrip", sd[i])
 	}
+	// order across round values of every internal quantity (metres, the angle
+	// metres/R, the half angle metres/2R: powers of ten and of two, fractions of
+	// the half circumference): pairs straddling each value from an ulp to a
+	// ten-thousandth apart
+	{
+		var ths []float64
+		for k := -12; k <= 0; k++ {
+			p10 := math.Pow(10, float64(k))
+			ths = append(ths, 2*sphere.R*p10, sphere.R*p10, 2*sphere.R*p10*math.Pi/180, 5*2*sphere.R*p10, 2*2*sphere.R*p10)
+		}
+		for k := -40; k <= 1; k++ {
+			p2 := math.Ldexp(1, k)
+			ths = append(ths, 2*sphere.R*p2, sphere.R*p2, 3*sphere.R*p2)
+		}
+		for k := -3; k <= 7; k++ {
+			ths = append(ths, math.Pow(10, float64(k)))
+		}
+		for k := -10; k <= 24; k++ {
+			ths = append(ths, math.Ldexp(1, k))
+		}
+		for _, f := range []float64{2, 3, 4, 6, 8, 1.5, 1.0001} {
+			ths = append(ths, piR/f)
+		}
+		n := 0
+		for _, t := range ths {
+			if !(t > 0 && t < piR) {
+				continue
+			}
+			for _, e := range []float64{0, 1e-15, 1e-13, 1e-12, 1e-11, 1e-10, 3e-10, 1e-9, 3e-9, 1e-8, 1e-7, 1e-6, 1e-4} {
+				lo, hi := t*(1-e), t*(1+e)
+				if e == 0 {
+					lo, hi = math.Nextafter(t, 0), math.Nextafter(t, piR)
+				}
+				for _, pr := range [][2]float64{{lo, hi}, {lo, t}, {t, hi}} {
+					if pr[0] < pr[1] && pr[1] <= piR {
+						n++
+						w.Trans++
+						w.Nontriv++
+						geoRun(w, "haversine-monotone", pr[0], pr[1])
+					}
+				}
+			}
+		}
+		r.Bounds["haversine_straddling_pairs"] = n
+	}
 	for _, d := range dists {
 		for _, k := range []float64{0, 1, 2, 3.5} {
 			geoRun(w, "normalize", d+k*2*piR)
